@@ -171,6 +171,8 @@ func runC18(p *P, r *R) {
 
 	c18WriteLoop(p, r)
 	c18Window(p, r)
+	// the window handed to the callback is only valid until commitRead: nothing may retain it
+	noEscapeOfEventBuffer(p, r, "R18.6")
 	c18Variants(p, r)
 }
 
